@@ -98,6 +98,7 @@ Record post (s : sk) (g : graph) (d : nat) (P0 : nat -> Prop) (g' : graph) (ps :
   post_state : if is_nil ps then pre g' d P0 else wf g' (fun i => P0 i \/ i ∈ ps);
   post_items : graph_items g' = graph_items g ++ nesting d s;
   post_ext : gext g g';
+  post_frame : forall i, i < length g - 1 -> g' !! i = g !! i;
 }.
 
 Lemma pre_length g d P0 : pre g d P0 -> 0 < length g.
@@ -116,7 +117,8 @@ Proof.
     intros [= <-]. split; [done|]. split; [apply ssorted_singleton|]. split; [|split; [|done]].
     + eapply wf_ext; [|apply (pre_wf _ _ _ Hpre)]. intros i. simpl. set_solver.
     + intros i Hi. right. set_solver.
-  - apply is_nil_false in E. intros Hwf Hss [= <-]. repeat split; try done. by left.
+  - apply is_nil_false in E. intros Hwf Hss [= <-].
+    split; [done|]. split; [done|]. split; [done|]. split; [|done]. intros i Hi. by left.
 Qed.
 
 Lemma wf_nonempty g (P : nat -> Prop) i : wf g P -> P i -> g <> [].
@@ -131,7 +133,7 @@ Definition visit_ok (s : sk) : Prop :=
 
 (* sequences of statements of a block *)
 Lemma visit_seq_post ss : Forall visit_ok ss ->
-  forall d g0 P0 g1 ps1 X g' ps,
+  forall d (g0 : graph) (P0 : nat -> Prop) (g1 : graph) (ps1 : list nat) X (g' : graph) (ps : list nat),
   (forall i, P0 i -> i < length g0 - 1) ->
   length g0 <= length g1 -> (forall i, i ∈ ps1 -> length g0 - 1 <= i < length g1) -> ssorted ps1 ->
   (if is_nil ps1 then pre g1 d P0 else wf g1 (fun i => P0 i \/ i ∈ ps1)) ->
@@ -139,47 +141,60 @@ Lemma visit_seq_post ss : Forall visit_ok ss ->
   visit_seq d ss ps1 g1 = Ok (g', ps) ->
   length g0 <= length g' /\ (forall i, i ∈ ps -> length g0 - 1 <= i < length g') /\ ssorted ps /\
   (if is_nil ps then pre g' d P0 else wf g' (fun i => P0 i \/ i ∈ ps)) /\
-  gext g0 g' /\ graph_items g' = graph_items g0 ++ X ++ nestings d ss.
+  gext g0 g' /\ graph_items g' = graph_items g0 ++ X ++ nestings d ss /\
+  (forall i, i < length g0 - 1 -> g' !! i = g1 !! i) /\ gext g1 g'.
 Proof.
   induction 1 as [|s r Hs _ IH]; intros d g0 P0 g1 ps1 X g' ps HP0 Hlen Hrange Hss Hst Hext Hit Hv.
-  - simpl in Hv. injection Hv as <- <-. rewrite app_nil_r. done.
+  - simpl in Hv. injection Hv as <- <-. rewrite app_nil_r. repeat (split; [done|]). apply gext_refl.
   - simpl in Hv. inv_bind Hv. rename a into g2. inv_bind Hv. destruct a as [g3 ps3]. simpl in Hv.
-    assert (H2 : pre g2 d P0 /\ length g1 <= length g2 /\ graph_items g2 = graph_items g1 /\ gext g1 g2).
+    assert (H2 : pre g2 d P0 /\ length g1 <= length g2 /\ graph_items g2 = graph_items g1 /\ gext g1 g2 /\
+                 (forall i, i < length g0 - 1 -> g2 !! i = g1 !! i)).
     { destruct (is_nil ps1) eqn:En.
-      - injection E as <-. split; [done|]. split; [done|]. split; [done|apply gext_refl].
+      - injection E as <-. split; [done|]. split; [done|]. split; [done|]. split; [apply gext_refl|done].
       - apply is_nil_false in En.
         destruct (step_complete g1 ps1 d P0 g2) as (Hp & Hl & Hi & He); try done.
         + destruct ps1 as [|p ?]; [done|]. eapply (wf_nonempty _ _ p); [done|]. right. set_solver.
         + intros i Hi HPi. specialize (HP0 _ HPi). specialize (Hrange _ Hi). lia.
-        + split; [done|]. split; [lia|]. done. }
-    destruct H2 as (Hpre2 & Hl2 & Hi2 & He2).
-    destruct (Hs d g2 P0 g3 ps3 Hpre2 E0) as [Q1 Q2 Q3 Q4 Q5 Q6].
-    destruct (IH d g0 P0 g3 ps3 (X ++ nesting d s) g' ps) as (R1 & R2 & R3 & R4 & R5 & R6); try done.
+        + split; [done|]. split; [lia|]. split; [done|]. split; [done|].
+          intros i Hi'. eapply frame_complete; [| |exact E| |lia].
+          * intros k Hk. apply (wf_P _ _ Hst). by right.
+          * by apply ssorted_NoDup.
+          * intros Hin. specialize (Hrange _ Hin). lia. }
+    destruct H2 as (Hpre2 & Hl2 & Hi2 & He2 & Hf2).
+    destruct (Hs d g2 P0 g3 ps3 Hpre2 E0) as [Q1 Q2 Q3 Q4 Q5 Q6 Q7].
+    destruct (IH d g0 P0 g3 ps3 (X ++ nesting d s) g' ps) as (R1 & R2 & R3 & R4 & R5 & R6 & R7 & R8); try done.
     + lia.
     + intros i Hi. specialize (Q2 _ Hi). lia.
     + eapply gext_trans; [done|]. eapply gext_trans; done.
     + rewrite Q5, Hi2, Hit, <- app_assoc. done.
-    + repeat split; try done. rewrite R6, <- app_assoc. done.
+    + split; [done|]. split; [done|]. split; [done|]. split; [done|]. split; [done|].
+      split; [rewrite R6; simpl; by rewrite <- app_assoc|]. split.
+      * intros i Hi. rewrite R7, Q7, Hf2; [done|lia..].
+      * eapply gext_trans; [exact He2|]. eapply gext_trans; [exact Q6|exact R8].
 Qed.
 
 Lemma visit_init_post ss : Forall visit_ok ss ->
-  forall d g0 P0 g1 X g' ps,
+  forall d (g0 : graph) (P0 : nat -> Prop) (g1 : graph) X (g' : graph) (ps : list nat),
   length g0 <= length g1 -> pre g1 d P0 ->
   gext g0 g1 -> graph_items g1 = graph_items g0 ++ X ->
   visit_init d ss g1 = Ok (g', ps) ->
   ps = [] /\ length g0 <= length g' /\ pre g' d P0 /\
-  gext g0 g' /\ graph_items g' = graph_items g0 ++ X ++ nestings d ss.
+  gext g0 g' /\ graph_items g' = graph_items g0 ++ X ++ nestings d ss /\
+  (forall i, i < length g0 - 1 -> g' !! i = g1 !! i) /\ gext g1 g'.
 Proof.
   induction 1 as [|s r Hs _ IH]; intros d g0 P0 g1 X g' ps Hlen Hpre Hext Hit Hv.
-  - simpl in Hv. injection Hv as <- <-. rewrite app_nil_r. done.
+  - simpl in Hv. injection Hv as <- <-. rewrite app_nil_r. repeat (split; [done|]). apply gext_refl.
   - simpl in Hv. inv_bind Hv. destruct a as [g3 ps3]. simpl in Hv.
     destruct (is_nil ps3) eqn:En; [|done].
-    destruct (Hs d g1 P0 g3 ps3 Hpre E) as [Q1 Q2 Q3 Q4 Q5 Q6]. rewrite En in Q4.
-    destruct (IH d g0 P0 g3 (X ++ nesting d s) g' ps) as (R1 & R2 & R3 & R4 & R5); try done.
+    destruct (Hs d g1 P0 g3 ps3 Hpre E) as [Q1 Q2 Q3 Q4 Q5 Q6 Q7]. rewrite En in Q4.
+    destruct (IH d g0 P0 g3 (X ++ nesting d s) g' ps) as (R1 & R2 & R3 & R4 & R5 & R6 & R8); try done.
     + lia.
     + by eapply gext_trans.
     + rewrite Q5, Hit, <- app_assoc. done.
-    + repeat split; try done. rewrite R5, <- app_assoc. done.
+    + split; [done|]. split; [done|]. split; [done|]. split; [done|].
+      split; [rewrite R5; simpl; by rewrite <- app_assoc|]. split.
+      * intros i Hi. rewrite R6, Q7; [done|lia..].
+      * by eapply gext_trans.
 Qed.
 
 Lemma singleton_ext (P0 : nat -> Prop) l i : (P0 i \/ i = l) <-> (P0 i \/ i ∈ [l]).
@@ -199,16 +214,17 @@ Proof.
   - (* leaf *)
     simpl in Hv. inv_bind Hv. inv_bind Hv. injection Hv as <- <-.
     destruct (step_leaf _ _ _ _ _ Hpre E0) as (H1 & H2 & H3 & H4).
-    split; simpl; try done; [lia|set_solver].
+    split; [lia|set_solver|done|exact H1|exact H3|exact H4|].
+    intros i Hi. apply upd_last_inv in E0 as [_ ->]. rewrite list_lookup_alter_ne by lia. done.
   - (* initialisation block *)
     rewrite visit_init_eq in Hv. inv_bind Hv.
-    destruct (visit_init_post ss IH d g P0 g [] g' ps) as (-> & R1 & R2 & R3 & R4); try done.
+    destruct (visit_init_post ss IH d g P0 g [] g' ps) as (-> & R1 & R2 & R3 & R4 & R5 & _); try done.
     + apply gext_refl.
     + by rewrite app_nil_r.
-    + split; simpl; try done; [set_solver|]. by rewrite nesting_init.
+    + split; [done|set_solver|done|exact R2|by rewrite nesting_init|done|done].
   - (* block *)
     rewrite visit_block_eq in Hv. inv_bind Hv.
-    destruct (visit_seq_post ss IH d g P0 g [] [] g' ps) as (R1 & R2 & R3 & R4 & R5 & R6); try done.
+    destruct (visit_seq_post ss IH d g P0 g [] [] g' ps) as (R1 & R2 & R3 & R4 & R5 & R6 & R7 & _); try done.
     + apply (pre_P0 _ _ _ Hpre).
     + set_solver.
     + apply gext_refl.
@@ -235,7 +251,7 @@ Proof.
     replace (l + 2) with (S (length g1 - 1)) in E2 by lia. rewrite Hh in E3, E6 |- *.
     destruct (step_branch g1 d (d + 1) P0 c g2 g3 Hp1 E2 E3) as (Hp3 & Hl3 & Hi3 & He3 & _).
     set (h := length g1 - 1) in *.
-    destruct (IH (d + 1) g3 _ g4 ps4 Hp3 E4) as [Q1 Q2 Q3 Q4 Q5 Q6].
+    destruct (IH (d + 1) g3 _ g4 ps4 Hp3 E4) as [Q1 Q2 Q3 Q4 Q5 Q6 Q7].
     destruct (or_last_spec g4 (d + 1) _ ps4 ps' Q4 Q3 E5) as (O1 & O2 & O3 & O4 & _).
     assert (Hps' : forall i, i ∈ ps' -> h < i /\ ~ P0 i).
     { intros i Hi. assert (length g3 - 1 <= i).
@@ -251,6 +267,19 @@ Proof.
     + simpl. eapply wf_ext; [|exact Hw5]. intros i. apply singleton_ext.
     + rewrite Hi5, Q5, Hi3, Hi1. simpl. rewrite <- app_assoc. simpl. by rewrite Nat.add_1_r.
     + eapply gext_trans; [exact He1|]. eapply gext_trans; [exact He3|]. eapply gext_trans; done.
+    + intros i Hi.
+      destruct (back_lookup h ps' g4 g5) as (_ & Hbl); [lia| |by apply ssorted_NoDup|done|].
+      { intros k Hk. split; [apply (wf_P _ _ O3); by right|]. apply Hps' in Hk. lia. }
+      assert (Hi4 : g4 !! i = g !! i).
+      { rewrite Q7 by lia. rewrite (frame_branch g1 _ g2 g3 (d + 1) i E2 E3) by (fold h; lia).
+        eapply frame_complete; [| |exact E1| |lia].
+        - intros k Hk. apply elem_of_list_singleton in Hk as ->. lia.
+        - apply NoDup_singleton.
+        - intros Hk. apply elem_of_list_singleton in Hk. lia. }
+      destruct (g !! i) as [b|] eqn:Eb.
+      * rewrite (Hbl _ _ Hi4). rewrite decide_False by lia.
+        rewrite decide_False; [done|]. intros Hk. apply Hps' in Hk. lia.
+      * apply lookup_ge_None in Eb. lia.
   - (* if *)
     simpl in Hv. rewrite (pre_last_index _ _ _ Hpre) in Hv. simpl in Hv.
     set (l := length g - 1) in *.
@@ -262,7 +291,9 @@ Proof.
     replace (l + 1) with (S l) in E1 by lia.
     destruct (step_branch g d d P0 c g1 g2 Hpre E1 E2) as (Hp2 & Hl2 & Hi2 & He2 & _).
     fold l in Hp2.
-    destruct (IHt d g2 _ g3 ps3 Hp2 E3) as [Q1 Q2 Q3 Q4 Q5 Q6].
+    destruct (IHt d g2 _ g3 ps3 Hp2 E3) as [Q1 Q2 Q3 Q4 Q5 Q6 Q7].
+    assert (Hf3 : forall i, i < l -> g3 !! i = g !! i).
+    { intros i Hi. rewrite Q7 by lia. apply (frame_branch g _ g1 g2 d i E1 E2). by fold l. }
     destruct (or_last_spec g3 d _ ps3 psi Q4 Q3 E4) as (O1 & O2 & O3 & O4 & _).
     assert (Hpsi : forall i, i ∈ psi -> length g2 - 1 <= i < length g3).
     { intros i Hi. destruct (O4 _ Hi) as [Hi'|[-> ->]]; [by apply Q2|lia]. }
@@ -278,7 +309,7 @@ Proof.
       { intros i Hi [HPi|HPi]; apply elem_of_list_singleton in Hi as ->.
         - apply (pre_P0 _ _ _ Hpre) in HPi. lia.
         - apply Hpsi in HPi. lia. }
-      destruct (IHe e eq_refl d g4 _ g5 ps5 Hp4 E6) as [R1 R2 R3 R4 R5 R6].
+      destruct (IHe e eq_refl d g4 _ g5 ps5 Hp4 E6) as [R1 R2 R3 R4 R5 R6 R7].
       destruct (or_last_spec g5 d _ ps5 pse R4 R3 E7) as (U1 & U2 & U3 & U4 & _).
       split.
       * lia.
@@ -290,6 +321,11 @@ Proof.
         eapply wf_ext; [|exact U3]. intros i. simpl. rewrite elem_of_iunion. tauto.
       * rewrite R5, Hi4, Q5, Hi2. simpl. rewrite <- !app_assoc. done.
       * eapply gext_trans; [exact He2|]. eapply gext_trans; [exact Q6|]. eapply gext_trans; done.
+      * intros i Hi. fold l in Hi. rewrite R7 by lia. rewrite <- Hf3 by done.
+        eapply frame_complete; [| |exact E5| |lia].
+        -- intros k Hk. apply elem_of_list_singleton in Hk as ->. lia.
+        -- apply NoDup_singleton.
+        -- intros Hk. apply elem_of_list_singleton in Hk. lia.
     + (* without else *)
       injection Hv as <- <-. split.
       * lia.
@@ -299,4 +335,5 @@ Proof.
         eapply wf_ext; [|exact O3]. intros i. simpl. rewrite elem_of_ins. tauto.
       * rewrite Q5, Hi2. simpl. rewrite <- !app_assoc, app_nil_r. done.
       * by eapply gext_trans.
+      * intros i Hi. apply Hf3. by fold l in Hi.
 Qed.
